@@ -2,7 +2,7 @@
 # usage: tools/seedtest.sh <patch.diff> <PROP> [PROP...]   (env TIER=quick|thorough)
 # Applies the patch to a scratch worktree of /repo's HEAD (outside /repo and /verif),
 # runs the named checks against it via AFKAK_SRC, removes the worktree.
-patch="$1"; shift
+patch="$(readlink -f "$1")"; shift
 wt=/tmp/afkverif-seed.$$
 git -C /repo worktree add -q --detach "$wt" HEAD || exit 3
 if ! git -C "$wt" apply "$patch" 2>/dev/null; then
